@@ -545,7 +545,12 @@ func (e *Evaluator) evalFor(f *parser.ForStmt) (value, error) {
 		loopVarName = f.LoopVar.Name
 	}
 	for r.next(e.scope, loopVarName) {
+		// Each iteration gets a fresh scope: a variable declared in the
+		// loop body must not be visible to the next iteration, where the
+		// same name may still refer to a variable of an outer scope.
+		e.pushScope()
 		val, err := e.eval(f.Block)
+		e.popScope()
 		if err != nil {
 			return nil, err
 		}
